@@ -240,8 +240,103 @@ def runCase (old : Bool) (sizes : List (String × Nat)) (p : Proc) (reqs : List 
           go st rs (out :: acc)
   " | ".intercalate (go (initSt p) reqs [])
 
+/-! ### `eval` lines: histories of executions/linearizations on a flat chain (verified functions only)
+
+  eval <chain cache n|s|f> <MDAChain wrapper cache -|n|s|f> K <n> {L <id> <ins> <outs> <cache>}*n
+       {F <id> <input data> <output data>}*  {O <x|l1|l0> <point>}*
+
+  data: `name=values;name=values` (`-` when empty); the values of a variable are an opaque string.
+  `F`: the table of the function of a leaf (input data -> output data), `O x` = execute(point),
+  `O l1` = linearize(point), `O l0` = linearize(point, execute=False).
+answer, per operation (separated by ` | `): `X <output data of the process>` or
+  `L <id>@<data of the inputs of the leaf when it computes its Jacobian> ...`.
+Runs `EChain.exec/lin` (or `mdaExec/mdaLin`) of Model/C09 at `V = D = String`. -/
+
+def parseData (s : String) : List (String × String) :=
+  if s = "-" then [] else (s.splitOn ";").filterMap (fun t => match t.splitOn "=" with
+    | [n, v] => some (n, v)
+    | _ => none)
+
+def envOf (l : List (String × String)) : Env String String :=
+  fun v => match l.find? (fun e => e.1 == v) with | some e => e.2 | none => "?"
+
+def showData (names : List String) (e : Env String String) : String :=
+  if names.isEmpty then "-" else ";".intercalate ((sortS names).eraseDups.map (fun n => s!"{n}={e n}"))
+
+def cacheKind (s : String) : CacheKind :=
+  if s = "n" then .none else if s = "f" then .full else .simple
+
+partial def parseEvalLeaves : Nat → List String → Option (List (Nat × List String × List String × CacheKind) × List String)
+  | 0, rest => some ([], rest)
+  | k + 1, "L" :: id :: i :: o :: c :: rest => do
+    let (ls, rest) ← parseEvalLeaves k rest
+    pure ((← id.toNat?, names i, names o, cacheKind c) :: ls, rest)
+  | _, _ => none
+
+partial def parseEvalTables : List String → List (Nat × List (String × String) × List (String × String)) × List String
+  | "F" :: id :: i :: o :: rest =>
+    let (ts, rest) := parseEvalTables rest
+    ((id.toNat!, parseData i, parseData o) :: ts, rest)
+  | rest => ([], rest)
+
+partial def parseEvalOps : List String → Option (List (String × Env String String))
+  | [] => some []
+  | "O" :: k :: pt :: rest => do
+    let ops ← parseEvalOps rest
+    pure ((k, envOf (parseData pt)) :: ops)
+  | _ => none
+
+def evalAnswer (ccache wcache : String) (leaves : List (Nat × List String × List String × CacheKind))
+    (tabs : List (Nat × List (String × String) × List (String × String)))
+    (ops : List (String × Env String String)) : String :=
+  let mkF := fun (id : Nat) (ins : List String) (e : Env String String) =>
+    match tabs.find? (fun t => t.1 == id && ins.all (fun v => envOf t.2.1 v == e v)) with
+    | some t => envOf t.2.2
+    | none => fun _ => "?"
+  let kids : List (EDisc String String) := leaves.map (fun l => ⟨l.2.1, l.2.2.1, mkF l.1 l.2.1, l.2.2.2⟩)
+  let c : EChain String String := ⟨kids, cacheKind ccache⟩
+  let showPts := fun (pts : List (Env String String)) =>
+    "L " ++ " ".intercalate ((leaves.zip pts).map (fun (l, p) => s!"{l.1}@{showData l.2.1 p}"))
+  let d0 : Env String String := fun _ => "?"
+  if wcache = "-" then
+    let rec go (st : ChState String String) (ops : List (String × Env String String)) (acc : List String) :=
+      match ops with
+      | [] => acc.reverse
+      | (k, x) :: ops =>
+        if k = "x" then
+          let st := c.exec st x
+          go st ops (("X " ++ showData (chainOuts kids) st.own.data) :: acc)
+        else
+          let r := c.lin st x (k = "l1")
+          go r.1 ops (showPts r.2 :: acc)
+    " | ".intercalate (go (ChState.fresh kids.length d0) ops [])
+  else
+    let w := cacheKind wcache
+    let rec goM (st : MState String String) (ops : List (String × Env String String)) (acc : List String) :=
+      match ops with
+      | [] => acc.reverse
+      | (k, x) :: ops =>
+        if k = "x" then
+          let st := mdaExec c w st x
+          goM st ops (("X " ++ showData (chainOuts kids) st.own.data) :: acc)
+        else
+          let r := mdaLin c w st x (k = "l1") true
+          goM r.1 ops (showPts r.2 :: acc)
+    " | ".intercalate (goM (MState.fresh kids.length d0) ops [])
+
 def answer (line : String) : String :=
   match tokens line with
+  | "eval" :: cc :: wc :: "K" :: n :: rest =>
+    match n.toNat? with
+    | some k =>
+      match parseEvalLeaves k rest with
+      | some (leaves, rest) =>
+        let (tabs, rest) := parseEvalTables rest
+        match parseEvalOps rest with
+        | some ops => evalAnswer cc wc leaves tabs ops
+        | none => "bad-ops"
+      | none => "bad-leaves"
+    | none => "bad-op"
   | "case" :: alg :: "V" :: sz :: "P" :: rest =>
     match parseSizes sz, parseProc rest with
     | some sizes, some (p, rest) =>
